@@ -49,6 +49,12 @@ FINDINGS.update({
     "C22-void-overwrite-keeps-old-value": "overwriting a stored value with nothing (nil pointer / nil []byte / zero time, or a zero value under omitempty) "
                                           "leaves the OLD value: the server's SetContentVoid does not clear a typed content (save 255, save 0 with "
                                           "omitempty, read -> 255)",
+    "C22-embedded-fields-dropped": "the tagged fields of an embedded struct are not persisted (catalog and profile models walk the top-level fields only): "
+                                   "they read back as zero values, no error",
+    "C22-unexported-field-panics": "an unexported struct field makes the SDK panic: CatalogSave on a tagged one (reflect Interface), ProfileRead after a "
+                                   "ProfileSave that stored it (reflect Set)",
+    "C22-dash-tag-not-skipped": "`hydraide:\"-\"` is not a skip marker: such fields become map-body fields named \"-\" (two of them overwrite each other, "
+                                "next to a `value` field CatalogSave fails with `mixes`), although the repository's own models use it to skip",
     "C22-value-conversion": "a value does not come back through CatalogSave / CatalogRead",
 })
 
@@ -61,11 +67,14 @@ def _tag(h):
     return "" if h == "-" else bytes.fromhex(h).decode("utf-8", "replace")
 
 
+_DASH_SKIP = False
+
+
 def expected(tag):
     """Spec: what each probe must observe when the tag is classified by its head, and only by its head."""
     head = tag.split(",")[0]
     slot = head if head in RESERVED else None
-    body = head != "" and slot is None
+    body = head != "" and slot is None and not (_DASH_SKIP and head == "-")
     shape = "shape=%s body=%s" % ("1" if slot == "value" else ("0" if slot or not body else "2"), head.encode().hex() if body else "")
     b = ",B" if body else ""
     if slot == "key":
@@ -109,6 +118,20 @@ def val_finding(f, line):
 def oracle(rep):
     for op, line in zip(rep["ops"], rep["impl"]):
         f = op.split(" ")
+        if f[0] == "shape":
+            if line != "same":
+                fid = {"embedded": "C22-embedded-fields-dropped", "embedded-pub": "C22-embedded-fields-dropped", "prof-embedded": "C22-embedded-fields-dropped",
+                       "unexported-tagged": "C22-unexported-field-panics", "prof-unexported": "C22-unexported-field-panics",
+                       "dash": "C22-dash-tag-not-skipped", "dash-value": "C22-dash-tag-not-skipped",
+                       "ptrs-nil": "C22-nil-body-field-unreadable"}.get(f[1], "C22-value-conversion")
+                return (fid, "model shape `%s` does not survive save + read: %s" % (f[1], line))
+            continue
+        if f[0] == "pupd":
+            if f[2] == "o" and line in ("stale", "diff") and f[4] in ("s:-", "n:0", "f:0", "y:nil", "c:nil", "p:nil", "t:zero", "b:0", "r:0"):
+                continue   # documented: an omitted profile field keeps its stored value (use `deletable`)
+            if line == "stale":
+                return ("C22-void-overwrite-keeps-old-value", "`%s`: the second save did not replace the first value" % op)
+            f = ["val", "p", f[1], "1" if f[2] in ("o", "d") else "0", f[4]]
         if f[0] == "upd":
             if line == "stale":
                 return ("C22-void-overwrite-keeps-old-value", "`%s`: the second save did not replace the first value" % op)
@@ -137,7 +160,9 @@ def spec_violated(rep):
 
 
 def run(ctx):
+    global _DASH_SKIP
     facts, _, _ = U.extract_facts(ctx)
+    _DASH_SKIP = facts.get("dashIsSkip") == "yes"
     K.lean_verdict(ctx)
     corrs = U.run_corr(ctx, "C22", facts)
     K.decide_standard(ctx, corrs, FINDINGS)
@@ -171,7 +196,7 @@ def run(ctx):
         samples=[{"op": c.ops[i], "impl": c.impl[i]} for i in list(range(1, min(len(c.ops), 5))) + [j for j, o in enumerate(c.ops) if o.startswith("val ")][:4]],
         evaluations=len(c.ops), distinct_nontrivial=max(len(set(c.ops)) - len(c.cases), 0),
         extra_cov={"correspondence": {"domain": "C22", "op_lines": len(c.ops), "mismatching_lines": len(c.mismatch),
-                                      "op_histogram": c.op_hist, "val_replies": {k: sum(1 for o, l in zip(c.ops, c.impl) if o.split(" ")[0] in ("val", "upd") and l == k) for k in ("same", "nilempty", "stale", "diff", "err")},
+                                      "op_histogram": c.op_hist, "val_replies": {k: sum(1 for o, l in zip(c.ops, c.impl) if o.split(" ")[0] in ("val", "upd", "pupd") and l == k) for k in ("same", "nilempty", "stale", "diff", "err")},
                                       "rt_ok": rt.count("ok"), "rt_bad": sum(1 for l in rt if l.startswith("bad")),
                                       "oracle_hits": hits, "lines_flagged_by_model": sum(1 for f in c.flags if f)}},
         trusted=["Lean 4.33.0 kernel", "axioms: propext, Classical.choice, Quot.sound", "extract/c22.go", "harness/c22.go",
